@@ -244,6 +244,15 @@ where
         // large α, which makes z exactly 0. (or worse, -0.0 )
         cones.scaled_unit_shift(z, -min_margin, pd);
         cones.scaled_unit_shift(z, target, pd);
+
+        // a very large first shift is only accurate to eps*|min_margin|,
+        // which can exceed the target and leave some other component on
+        // or outside the boundary of its cone.  Correct using the margin
+        // that actually resulted.
+        let (min_margin, _) = cones.margins(z, pd);
+        if min_margin < target * (0.5).as_T() {
+            cones.scaled_unit_shift(z, target - min_margin, pd);
+        }
     } else if min_margin < target {
         // margin is positive but small.
         cones.scaled_unit_shift(z, target - min_margin, pd);
